@@ -206,12 +206,13 @@ def operand(cfg, depth):
     return st.one_of(*opts)
 
 
-def op(cfg, depth, names=None):
+def op(cfg, depth, names=None, opnd=None):
     names = names or cfg.ops or (RICH_OPS if cfg.rich else BUILD_OPS)
     width = st.integers(0, 16)
     fill = st.sampled_from([' ', ' ', '*', '0', ':', '+', '-', 'é'])
     ip = st.booleans()
     sub = small_sub(cfg)
+    opd = opnd if opnd is not None else operand(cfg, depth)
     table = {
         'apply': st.fixed_dictionaries({'op': st.just('apply'), 's': specs(cfg), 'a': idx(cfg.far), 'b': idx(cfg.far),
                                         'top': st.sampled_from([True, True, False])}),
@@ -220,16 +221,16 @@ def op(cfg, depth, names=None):
         'slice': st.fixed_dictionaries({'op': st.just('slice'), 'a': idx(cfg.far), 'b': idx(cfg.far)}),
         'index': st.fixed_dictionaries({'op': st.just('index'), 'i': st.integers(-12, 12)}),
         'clip': st.fixed_dictionaries({'op': st.just('clip'), 'a': idx(cfg.far), 'b': idx(cfg.far), 'ip': ip}),
-        'add': st.fixed_dictionaries({'op': st.just('add'), 'x': operand(cfg, depth)}),
-        'iadd': st.fixed_dictionaries({'op': st.just('iadd'), 'x': operand(cfg, depth)}),
-        'join': st.fixed_dictionaries({'op': st.just('join'), 'xs': st.lists(operand(cfg, depth), max_size=3)}),
+        'add': st.fixed_dictionaries({'op': st.just('add'), 'x': opd}),
+        'iadd': st.fixed_dictionaries({'op': st.just('iadd'), 'x': opd}),
+        'join': st.fixed_dictionaries({'op': st.just('join'), 'xs': st.lists(opd, max_size=3)}),
         'ljust': st.fixed_dictionaries({'op': st.just('ljust'), 'w': width, 'f': fill, 'ext': st.booleans(), 'ip': ip}),
         'rjust': st.fixed_dictionaries({'op': st.just('rjust'), 'w': width, 'f': fill, 'ext': st.booleans(), 'ip': ip}),
         'center': st.fixed_dictionaries({'op': st.just('center'), 'w': width, 'f': fill, 'ext': st.booleans(), 'ip': ip}),
         'zfill': st.fixed_dictionaries({'op': st.just('zfill'), 'w': width, 'ip': ip}),
         'assign': st.fixed_dictionaries({'op': st.just('assign'), 't': texts(0, 12, esc=cfg.esc, nonascii=cfg.nonascii)}),
         'replace': st.fixed_dictionaries({'op': st.just('replace'), 'old': texts(1, 2, nonascii=False, alphabet='abAB -:01'),
-                                          'new': operand(cfg, depth), 'n': st.sampled_from([-1, -1, 0, 1, 2]), 'ip': ip}),
+                                          'new': opd, 'n': st.sampled_from([-1, -1, 0, 1, 2]), 'ip': ip}),
         'strip': st.fixed_dictionaries({'op': st.just('strip'), 'c': st.one_of(st.none(), sub), 'ip': ip}),
         'lstrip': st.fixed_dictionaries({'op': st.just('lstrip'), 'c': st.one_of(st.none(), sub), 'ip': ip}),
         'rstrip': st.fixed_dictionaries({'op': st.just('rstrip'), 'c': st.one_of(st.none(), sub), 'ip': ip}),
